@@ -120,7 +120,7 @@ theorem connWorld_conns {H fn fe fc acell roots cobs w conns armed}
       cellO := ?_, cellS := ?_
       lenC := by simp [hlenC]
       lenA := by simp [hlenA]
-      obs := ?_, acell := ?_, liveArmed := ?_ }
+      obs := ?_, acell := ?_, liveArmed := ?_, obsv := h.obsv }
   · rw [liveFrom_append _ 0 cobs conns hlenC, Nat.zero_add]
     show (((w.cells.set _ _).set _ _) ++ _)[H.observers]? = _
     rw [get_app_lt _ _ _ (by simp; exact hOl)]
@@ -244,7 +244,7 @@ theorem srcUnsub_spec {H fn fe fc acell roots cobs w conns armed} {K : Nat → P
             rw [set_get_other _ h.ne, set_get_other _ (hA i hi).2, List.length_set]; exact h.cellS
           lenC := by rw [List.length_set]; exact h.lenC
           lenA := by rw [List.length_set, List.length_set]; exact h.lenA
-          obs := ?_, acell := ?_, liveArmed := ?_ }
+          obs := ?_, acell := ?_, liveArmed := ?_, obsv := h.obsv }
       · intro j hj
         rw [List.length_set] at hj
         show (w.obs.modify _ _)[_]? = _
@@ -275,7 +275,7 @@ theorem srcUnsub_spec {H fn fe fc acell roots cobs w conns armed} {K : Nat → P
             simpa [List.getD_eq_getElem?_getD, Ne.symm e] using hj
           have := h.liveArmed j h1
           simpa [List.getD_eq_getElem?_getD, Ne.symm e] using this
-    · refine ⟨rfl, rfl, rfl, rfl, rfl, by simp, ?_, by simp, ?_⟩
+    · refine ⟨rfl, rfl, rfl, rfl, rfl, by simp, ?_, by simp, ?_, rfl⟩
       · intro j hj
         show (w.obs.modify _ _)[j]? = _
         rw [modify_get_other]
